@@ -320,20 +320,31 @@ pub fn reply_for(target_tag: u8, payload: &[u8]) -> Vec<u8> {
 
 impl UdpTarget {
     pub fn spawn(tag: u8, echo: bool) -> UdpTarget {
+        UdpTarget::spawn_delayed(tag, echo, 0)
+    }
+
+    /// As `spawn`, but every reply is sent `delay_ms` after its request arrived (replies that come back after the
+    /// application has moved on to another target).
+    pub fn spawn_delayed(tag: u8, echo: bool, delay_ms: u16) -> UdpTarget {
         let s = UdpSocket::bind(SocketAddrV4::new(Ipv4Addr::LOCALHOST, 0)).expect("harness: udp target bind");
         let port = s.local_addr().expect("harness: local_addr").port();
-        s.set_read_timeout(Some(Duration::from_millis(30))).ok();
+        s.set_read_timeout(Some(Duration::from_millis(2))).ok();
         let got = Arc::new(Mutex::new(vec![]));
         let stop = Arc::new(AtomicBool::new(false));
         let (g2, s2) = (got.clone(), stop.clone());
         let handle = std::thread::spawn(move || {
             let mut buf = vec![0u8; 70000];
+            let mut due: std::collections::VecDeque<(Instant, SocketAddr, Vec<u8>)> = Default::default();
             while !s2.load(Ordering::Relaxed) {
                 if let Ok((n, from)) = s.recv_from(&mut buf) {
                     g2.lock().unwrap().push((from, buf[..n].to_vec()));
                     if echo {
-                        let _ = s.send_to(&reply_for(tag, &buf[..n]), from);
+                        due.push_back((Instant::now() + Duration::from_millis(delay_ms as u64), from, reply_for(tag, &buf[..n])));
                     }
+                }
+                while due.front().map(|(t, _, _)| *t <= Instant::now()).unwrap_or(false) {
+                    let (_, to, r) = due.pop_front().unwrap();
+                    let _ = s.send_to(&r, to);
                 }
             }
         });
